@@ -488,9 +488,12 @@ func runOnce(w *world, out *vfd.Out, tab *ids, run string, seq []int, idx []int)
 				continue
 			}
 			kv, err := svc.GetState(w.hashes[b])
-			g := map[string]any{"b": b, "found": err == nil, "kv": 0, "nkv": len(kv)}
+			g := map[string]any{"b": b, "found": err == nil, "kv": 0, "nkv": len(kv), "kvroot": 0}
 			if err == nil {
 				g["kv"] = tab.of(kvDigest(kv))
+				// side observation (not judged for C26): reference Merkle root of what GetState returned
+				r := m.MerklizationSerializedState(kv.DeepCopy())
+				g["kvroot"] = tab.of("r:" + hex.EncodeToString(r[:]))
 			}
 			gets = append(gets, g)
 		}
